@@ -72,6 +72,32 @@ func runC18(c *Check) {
 		return f != nil && f.Name() == "Metadata" && onMsg(base)
 	}
 
+	// the command is settled by the command processor, from what the handler returns — after OnCommandProcessed published the
+	// reply: the request-reply layer itself settles no message except the notifications its listener consumes
+	{
+		inListener := map[*ssa.Function]bool{}
+		for _, f := range WithAnon(listen) {
+			inListener[f] = true
+			for _, g := range sameReceiverCalleesOf(f) {
+				for _, h := range WithAnon(g) {
+					inListener[h] = true
+				}
+			}
+		}
+		ns := 0
+		for _, f := range c.P.SrcFuncs(rrRel) {
+			if inListener[f] || inListener[outermost(f)] {
+				continue
+			}
+			for _, cl := range CallsIn(f) {
+				if n := CalleeName(cl); n == nAck || n == nNack {
+					ns++
+					c.Report(false, P+".O2", "COMMAND-SETTLED-ONLY-BY-THE-PROCESSOR", f, cl.Pos(), n, "outside the reply listener the request-reply code calls neither Ack nor Nack: the command message is settled by the command processor from the handler's return value, i.e. only after the reply was published (an earlier Ack cannot be taken back when the publish fails)")
+				}
+			}
+		}
+		c.Report(true, P+".O2", "SETTLE-CALLS-SCANNED", processed, processed.Pos(), "package requestreply", fmt.Sprintf("%d Ack/Nack calls outside the reply listener", ns))
+	}
 	// listener literal
 	var lit *ssa.Function
 	var goLit *ssa.Go
@@ -434,6 +460,28 @@ func c18Finish(c *Check, P string, listen, lit *ssa.Function, goLit *ssa.Go) {
 		chk(dCancel, "defer cancel()", "the listener's context is cancelled exactly once on exit")
 	}
 	chk(dFinish, "defer OnListenForReplyFinished", "the finish hook is deferred exactly once at the goroutine's entry (runs on every exit)")
+	// … and called nowhere else: the deferred call is the only call of the hook in the package
+	{
+		deferred := map[*ssa.Function]bool{}
+		for _, d := range dFinish {
+			if f := FuncOfValue(d.Call.Value); f != nil {
+				deferred[f] = true
+			}
+			if cf := CalleeFn(&d.Call); cf != nil {
+				deferred[cf] = true
+			}
+		}
+		for _, f := range WithAnon(listen) {
+			for _, cl := range CallsIn(f) {
+				if !AllOrigins(cl.Common().Value, exportedFieldLoad("OnListenForReplyFinished")) {
+					continue
+				}
+				_, isDefer := cl.(*ssa.Defer)
+				okOnly := deferred[cl.Parent()] || (isDefer && cl.Parent() == lit)
+				c.Report(okOnly, P+".O4", "FINISH-HOOK-ONLY-DEFERRED", f, cl.Pos(), "OnListenForReplyFinished call", "the finish hook is called by the deferred call only (a second call in a branch of the listener makes it run twice on that exit)")
+			}
+		}
+	}
 	if len(dClose) == 1 {
 		c.Report(isReplyChan(dClose[0].Call.Args[0]), P+".O4", "FINISH-CLOSES-REPLY-CHANNEL", lit, dClose[0].Pos(), "defer close(replyChan)", "the closed channel is the one returned to the caller")
 	} else if closeInFinish != nil {
@@ -635,7 +683,11 @@ func c18Processed(c *Check, P string, fn *ssa.Function, key string, isKeyGet fun
 			case isHandleErr(v):
 				c.Report(GuardedBy(fn, r, finalOK) && GuardedBy(fn, r, ackFalse), P+".O2", "REPLY-BEFORE-SETTLE/handler-error", fn, r.Pos(), k, "the handler's error decides the settlement only after the reply was published, on the !AckCommandErrors edge")
 			default:
-				c.Report(Wraps(v, isPubErr) || Wraps(v, func(x ssa.Value) bool { return IsResultOf(x, pub, 0) || ResultOfAny(eh, 0)(x) }), P+".O2", "REPLY-PUBLISH-ERROR-RETURNED", fn, r.Pos(), k, "a failed reply publish is returned as an error (⇒ Nack, the command is redelivered)")
+				// … and it is an error: what is wrapped is known to be non-nil at this return (errors.Wrap of a nil error is nil — a
+				// return that hands on whatever the error handler answered acks the command when the handler answered nil,
+				// whatever AckCommandErrors and the handler's error say)
+				okNN := ProvablyNonNil(v, func(x ssa.Value) bool { return KnownNonNilAt(fn, r, x) })
+				c.Report(okNN && (Wraps(v, isPubErr) || Wraps(v, func(x ssa.Value) bool { return IsResultOf(x, pub, 0) || ResultOfAny(eh, 0)(x) })), P+".O2", "REPLY-PUBLISH-ERROR-RETURNED", fn, r.Pos(), k, "a failed reply publish is returned as an error that is non-nil at that return (⇒ Nack, the command is redelivered)")
 			}
 		}
 	}
